@@ -82,33 +82,6 @@ Section Table.
   Definition occupied (t : table) : list (N * V) :=
     flat_map (fun s : slot => match s with Some e => [e] | None => [] end) t.
 
-  Variable sz : nat.
-  Variable probe : N -> nat -> nat.
-
-  (* the search loop of the C++ tables: stop at an empty slot (not found) or at the key (found);
-     [fuel] bounds the number of slots visited; [None] = "key not found and no empty slots" *)
-  Fixpoint find_from (t : table) (key : N) (j fuel : nat) : option (nat * bool) :=
-    match fuel with
-    | O => None
-    | S f =>
-      let i := probe key j in
-      match nth i t None with
-      | None => Some (i, false)
-      | Some (k, _) => if N.eqb k key then Some (i, true) else find_from t key (S j) f
-      end
-    end.
-
-  Definition find (t : table) (key : N) : option (nat * bool) := find_from t key 0 sz.
-
-  (* store an entry at the slot [find] designates (as resize/rebuild do: the flag is not looked at) *)
-  Definition put (t : table) (e : N * V) : table :=
-    match find t (fst e) with
-    | Some (i, _) => set_nth i (Some e) t
-    | None => t
-    end.
-
-  Definition rehash (l : list (N * V)) : table := fold_left put l (repeat None sz).
-
   (* ---- list facts ---- *)
   Lemma set_nth_length i x t : length (set_nth i x t) = length t.
   Proof. revert i; induction t as [|y r IH]; intros [|i]; simpl; auto. Qed.
@@ -185,6 +158,33 @@ Section Table.
     - destruct IH as (e & He & Hn); [lia|]. exists (S e). split; [lia|auto].
     - exists 0%nat. split; [lia|auto].
   Qed.
+
+  Variable sz : nat.
+  Variable probe : N -> nat -> nat.
+
+  (* the search loop of the C++ tables: stop at an empty slot (not found) or at the key (found);
+     [fuel] bounds the number of slots visited; [None] = "key not found and no empty slots" *)
+  Fixpoint find_from (t : table) (key : N) (j fuel : nat) : option (nat * bool) :=
+    match fuel with
+    | O => None
+    | S f =>
+      let i := probe key j in
+      match nth i t None with
+      | None => Some (i, false)
+      | Some (k, _) => if N.eqb k key then Some (i, true) else find_from t key (S j) f
+      end
+    end.
+
+  Definition find (t : table) (key : N) : option (nat * bool) := find_from t key 0 sz.
+
+  (* store an entry at the slot [find] designates (as resize/rebuild do: the flag is not looked at) *)
+  Definition put (t : table) (e : N * V) : table :=
+    match find t (fst e) with
+    | Some (i, _) => set_nth i (Some e) t
+    | None => t
+    end.
+
+  Definition rehash (l : list (N * V)) : table := fold_left put l (repeat None sz).
 
   (* ---- the probing invariant ---- *)
   Hypothesis probe_lt : forall k j, (probe k j < sz)%nat.
